@@ -137,6 +137,24 @@ func vChannel() *vChanEnv {
 	return e
 }
 
+// vEmptyChannel is a channel with no sessions and no remote key.
+func vEmptyChannel() *vChanEnv {
+	e := &vChanEnv{}
+	e.c = &Channel{
+		params: ChannelConfig{
+			Registry: vRegistry(), PrivateKey: vLocalKey(),
+			Send:      func(x []byte) { e.sent = append(e.sent, vCloneB(x)) },
+			AcceptKey: e.accept, KeepAliveTimeout: KeepAliveTimeout, HandshakeBackoff: HandshakeBackoff,
+			RekeyAfterTime: RekeyAfterTime, RejectAfterTime: RejectAfterTime,
+		},
+		privateKey:     privateKey{Registry: vRegistry(), Key: vLocalKey()},
+		ready:          make(chan struct{}),
+		rekeyTimer:     &Timer{},
+		handshakeTimer: &Timer{},
+	}
+	return e
+}
+
 // vCheckJ checks the slot invariant and key discipline after a step.
 func vCheckJ(e *vChanEnv) {
 	c := e.c
